@@ -130,6 +130,11 @@ def applyQuery (E : Env σ) (cfg : RCfg) (w : World σ) (conds : List Cond) (con
             (shape E.hash w'.threshold (effectiveSort (querySort exp) w'.sortMode) rows)
             none)
 
+/-- `Display` of the runner's `SystemError` (exit status, stdout, stderr; the mock's stderr is empty) -/
+def systemErrorText (code : Nat) (out : Str) : Str :=
+  kw "process exited unsuccessfully: exit status: " ++ natToStr code ++ kw "\nstdout: " ++ out ++
+    kw "\nstderr: "
+
 /-- `command.trim().ends_with('&')` -/
 def isBackground (cmd : Str) : Bool := endsWithChar (trim cmd) '&'
 
@@ -144,10 +149,10 @@ def applySystem (E : Env σ) (cfg : RCfg) (w : World σ) (conds : List Cond) (co
         let r := E.cmd w.db cmd
         let w' : World σ := { w with db := r.1, trace := w.trace ++ [.cmd cmd] }
         match r.2 with
-        | .spawnErr => (w', .system none (some []))
+        | .spawnErr => (w', .system none (some (kw "spawnerr")))
         | .exit code out =>
           if code = 0 then (w', .system (if expStdout.isSome then some out else none) none)
-          else (w', .system none (some []))
+          else (w', .system none (some (systemErrorText code out)))
 
 def applyControl (w : World σ) : Control → World σ
   | .sortMode m => { w with sortMode := some m }
@@ -193,7 +198,7 @@ def runRecord (E : Env σ) (cfg : RCfg) (w : World σ) (r : Rec) : World σ × V
 
 inductive RunResult
   | ok
-  | failed (line : Nat) (k : FailKind)
+  | failed (line : Nat) (k : FailKind) (detail : Str)
   | crashed                     -- an `unreachable!()` / `unwrap` panic
   deriving DecidableEq, Repr
 
@@ -210,7 +215,7 @@ def runMulti (E : Env σ) (cfg : RCfg) : World σ → List Rec → World σ × R
       let a := runRecord E cfg w r
       match a.2 with
       | .pass => runMulti E cfg a.1 rs
-      | .fail k => (a.1, .failed (r.line?.getD 0) k)
+      | .fail k d => (a.1, .failed (r.line?.getD 0) k d)
       | .unreachable => (a.1, .crashed)
 
 /-- `Connections::shutdown_all` (the order comes from a `HashMap`: compared as a multiset) -/
